@@ -1288,6 +1288,199 @@ def user_wrap_cases(ctx, tables):
     return cases
 
 
+# ---------------------------------------------------------------- DECLARED-ONLY attributes x RUNS of alias data x FLAG spellings
+# Two families of input the passes above never write:
+#  (1) a definition may DECLARE an attribute without giving it a value (the built-in tables do so for href / src / alt:
+#      `a[href]`, `img[src alt]`); a user table may do the same for ANY attribute, `class` included (`div[class]+section[class]`),
+#      on SEVERAL top-level elements at once, and may write the value empty (`[class=""]`, `[t='']`) or boolean (`[t.]`).
+#      And the alias may carry a RUN of data of the same name: two or three classes (`KEY.a.b`, `KEY.a.b.c`), a class next to a
+#      class attribute (`KEY.a[class=b]`), the same attribute twice (`KEY[t=1][t=2]`, `KEY#i#j`).  "Attributes written on the alias
+#      are applied to the top-level elements of the definition": EVERY top-level element gets exactly what the same run written
+#      on it in place gives.  The passes above write one class word and one fresh attribute (`.extra[t=v]`) or one colliding
+#      attribute on the alias, and generated definitions always give their attributes a value.
+#  (2) `output.reverseAttributes` is a flag; the Python port (as Python callers do) takes it by truth value, so a caller may write
+#      1 / 'yes' / [1] for on and 0 / None / '' for off.  "For every configuration" includes these spellings: the alias and the
+#      definition in its place (alias attributes first when the flag is TRUE IN PYTHON, i.e. bool(value)) must agree, and the
+#      value written on the alias must be the one every top-level element carries.  The passes above write True or leave it out.
+DECLARED_ATTRS_AND_DATA_RUNS = True      # generator class (1)
+FLAG_SPELLINGS = True                    # generator class (2)
+TRUTHY_FLAGS = [1, 1.0, 'yes', 'true', 2, [1]]          # true in Python, not the object True
+FALSY_FLAGS = [0, None, '', 0.0, []]                              # false in Python, not the object False
+# an attribute declared without value / with an empty value / boolean, as a definition may write it on a top-level element
+DECLARED_EMPTY = ['[class]', '[class]', '[class]', '[class=""]', "[class='']", '[title]', '[t]', '[t=""]', '[t.]', '[class title]',
+                  '[title class]', '[id]', '[class t]']
+DECLARED_FULL = ['.c', '[class=c]', '[class="c d"]', '[t=1]', '[title=x]', '#i', '.c[class]', '[class].c', '']
+# runs of alias data: the same name more than once
+DATA_RUNS = ['.a.b', '.a.b.c', '.a.b', '.a[class=b]', '[class=a].b', '[class="a b"].c', '#i.a.b', '.a#i.b', '[t=1][t=2]', '[t=1 t=2]',
+             '[title=x].a.b', '.a.b[t]', '[t=1 u=2][t=3]', '#i#j', '[class=a][class=b][class=c]', '.a.b[class]', '[title=x][title=y]',
+             '.a.b[title=x t=2]', '[class=a class=b]']
+# An alias that carries an EXPLICITLY EMPTY class value followed by more class data (`KEY[class=""].a`, `KEY[class={}].a`, or a definition that
+# writes `[class=""]` on an inner alias which then receives classes) over a definition with two or more top-level elements that declare
+# `class` without a value: OFF -- genuine defect of the unchanged library found by this class (reported, not repaired here):
+# expand('cols[class=""].nv', {'snippets': {'cols': 'div[class]+section[class]'}}) gives class="nv" / class="nv nv", the definition in
+# place (`div[class][class=""].nv+section[class][class=""].nv`) gives class="nv" on both.
+EMPTY_CLASS_VALUE_ON_ALIAS = False
+DATA_RUNS_EMPTY_CLASS = ['[class=""].a', "[class=''].a.b", '[class={}].a', '[class="" t=1].a']
+_EMPTY_CLASS_DECL = ('[class=""]', "[class='']")
+RUN_FORMS = [('alone', '%s', '%s'), ('in-parent', 'ul>%s', 'ul>%s'), ('repeat-in-parent', 'ul>%s*2', 'ul>(%s)*2'),
+             ('next-to-plain', 'i+%s+b', 'i+(%s)+b')]
+_flag_rot = [0]
+
+
+def spelled_flag(on, rng=None):
+    """A value of the flag with the truth value `on`: the bool itself one time in three (built-in tables: by rotation)."""
+    fam = TRUTHY_FLAGS if on else FALSY_FLAGS
+    if rng is not None:
+        return (True if on else False) if rng.random() < 0.34 else copy.deepcopy(rng.choice(fam))
+    _flag_rot[0] += 1
+    return copy.deepcopy(fam[_flag_rot[0] % len(fam)])
+
+
+def flag_kind(v):
+    return 'bool' if isinstance(v, bool) else '%s:%s' % ('true' if v else 'false', type(v).__name__)
+
+
+def declared_definition(rng, names, keys=()):
+    """1-3 top-level elements; most of them DECLARE the same attribute without a value; children / text / marks as elsewhere."""
+    n_top = rng.choice([1, 2, 2, 2, 3, 3])
+    shared = rng.choice(DECLARED_EMPTY)
+    d = ''
+    shapes = []
+    for i in range(n_top):
+        s = rng.choice(names)
+        r = rng.random()
+        decl = shared if r < 0.7 else rng.choice(DECLARED_EMPTY) if r < 0.85 else rng.choice(DECLARED_FULL)
+        if decl in _EMPTY_CLASS_DECL and s in keys and not EMPTY_CLASS_VALUE_ON_ALIAS:
+            decl = '[class]'          # an inner alias with an explicitly empty class value: see EMPTY_CLASS_VALUE_ON_ALIAS
+        shapes.append(decl)
+        s += decl
+        r = rng.random()
+        if r < 0.15:
+            s += '{%s}' % rng.choice(['hi', 'T'])
+        elif r < 0.22:
+            s += '/'
+        elif r < 0.3:
+            s += '*2'
+        nested = 0
+        if rng.random() < 0.25:
+            s += '>' + rng.choice(PLAIN) + rng.choice(DECLARED_EMPTY + DECLARED_FULL)
+            nested = 1
+        d += s
+        if i + 1 < n_top:
+            d += '^' if nested else '+'
+    return d, n_top, shapes
+
+
+def declared_tables(ctx, n_tables):
+    """[(cfg, table, {key: (tops, shapes)})] from an own random stream (the tables of the other passes stay what they were for a
+    VERIF_SEED).  Acyclic: a definition mentions plain names and later keys only."""
+    rng = random.Random(ctx.seed * 7919 + 15)
+    out = []
+    for _ in range(n_tables):
+        keys = (USER_KEYS if rng.random() < 0.8 else ODD_KEYS)[:rng.randint(1, 3)]
+        table, info = {}, {}
+        for i, k in enumerate(keys):
+            d, n_top, shapes = declared_definition(rng, PLAIN * 2 + keys[i + 1:] * 2, keys)
+            table[k] = d
+            info[k] = (n_top, shapes)
+        cfg = {'snippets': table}
+        on = rng.random() < 0.4
+        if FLAG_SPELLINGS:
+            if on or rng.random() < 0.3:
+                cfg['options'] = {'output.reverseAttributes': spelled_flag(on, rng)}
+        elif on:
+            cfg['options'] = {'output.reverseAttributes': True}
+        if rng.random() < 0.15:
+            cfg['syntax'] = rng.choice(['xml', 'jsx', 'pug'])
+        out.append((cfg, table, info, rng))
+    return out
+
+
+def flag_of(cfg):
+    return (cfg.get('options') or {}).get('output.reverseAttributes', False)
+
+
+def run_cases_for(key, d, cfg, kind, rng, decos, **extra):
+    """One case per decoration: the run written on the alias (a drawn form) against the run written on every top-level element
+    of the definition by the textual reader (after the element's own attributes; directly after the name when the flag is on)."""
+    rev = bool(flag_of(cfg))
+    out = []
+    for deco in decos:
+        dd = su.decorate_tops(d, deco, after_name=rev)
+        if dd is None:
+            continue
+        forms = list(RUN_FORMS)
+        name, fa, fb = rng.choice(forms)
+        a, b = fa % (key + deco), fb % dd
+        if name == 'alone' and su.ends_with_element(d) and rng.random() < 0.3:
+            name, a, b = 'child', key + deco + '>b', dd + '>b'
+        out.append(dict(extra, kind='%s:run:%s' % (kind, name), a=a, b=b, config=cfg, equal=True,
+                        cover=['run:data:' + deco, 'run:flag:' + flag_kind(flag_of(cfg))]))
+    return out
+
+
+def declared_run_cases(ctx, n_tables):
+    """Generated tables of class (1), their configuration's flag spelled as in class (2)."""
+    cases = []
+    if not DECLARED_ATTRS_AND_DATA_RUNS:
+        return cases
+    n = 0
+    for cfg, table, info, rng in declared_tables(ctx, n_tables):
+        bound = len(set(table.values()))
+        for k, d in table.items():
+            n += 1
+            n_top, shapes = info[k]
+            valueless_class = sum(1 for s in shapes if re.match(r'\[class( title| t)?\]|\[title class\]', s))
+            cov = ['run:definition:top-level-elements:%d' % n_top,
+                   'run:definition:elements-declaring-class-without-value:%d' % valueless_class]
+            runs = DATA_RUNS + (DATA_RUNS_EMPTY_CLASS * 2 if EMPTY_CLASS_VALUE_ON_ALIAS else [])
+            new = run_cases_for(k, d, cfg, 'user', rng, rng.sample(runs, 2), bound=bound, to_model=n % 4 == 0)
+            for c in new:
+                c['cover'] = c['cover'] + cov
+            cases += new
+            # a colliding single attribute under the spelled flag as well (override_oracle: the value written on the alias is carried)
+            if COLLIDING_ALIAS_ATTRIBUTES and rng.random() < 0.5:
+                for kind, a, b, deco in override_pairs(k, d, cfg, bool(flag_of(cfg)), rng, per_name=1):
+                    if deco == '[class=nv]':
+                        # one more class word is the business of the runs above (judged by alias = definition in place); the tree
+                        # oracle's joined value does not say how an explicitly empty class value of the definition is joined
+                        continue
+                    cases.append({'kind': 'user:run:' + kind, 'a': a, 'b': b, 'config': cfg, 'equal': b is not None, 'bound': bound,
+                                  'key': k, 'deco': deco, 'to_model': False, 'cover': ['run:flag:' + flag_kind(flag_of(cfg))]})
+    return cases
+
+
+def builtin_run_cases():
+    """Every built-in key (html; the keys xsl / pug add or change): one run of alias data (rotating), a third of the keys with the flag
+    on; and, class (2), every attribute name its definition gives a top-level element written on the alias again (one value,
+    rotating through the shapes of COLLIDING_ALIAS_ATTRIBUTES) under a flag that is SPELLED (never the bool object)."""
+    from emmet.snippets import markup_snippets, xsl_snippets, pug_snippets
+    cases = []
+    own = (('html', dict(markup_snippets)), ('xsl', dict(xsl_snippets)), ('pug', dict(pug_snippets)))
+    rng = random.Random(1415)          # the same draws in every run
+    shared = {}
+    i = 0
+    for syn, tbl in own:
+        for k, d in tbl.items():
+            if mentions_lorem_text(k + d):
+                continue
+            i += 1
+            on = i % 3 == 0
+            if FLAG_SPELLINGS:
+                flag = spelled_flag(on)
+                cfg = shared.setdefault((syn, repr(flag)), {'syntax': syn, 'options': {'output.reverseAttributes': flag}})
+            else:
+                cfg = shared.setdefault((syn, on), {'syntax': syn, 'options': {'output.reverseAttributes': True}} if on else {'syntax': syn})
+            if DECLARED_ATTRS_AND_DATA_RUNS:
+                cases += run_cases_for(k, d, cfg, 'builtin', rng, [DATA_RUNS[i % len(DATA_RUNS)]], bound=None, to_model=i % 4 == 0)
+            if FLAG_SPELLINGS and COLLIDING_ALIAS_ATTRIBUTES:
+                for kind, a, b, deco in override_pairs(k, d, cfg, on, None, per_name=1):
+                    cases.append({'kind': 'builtin:flag-spelled:' + kind, 'a': a, 'b': b, 'config': cfg, 'equal': b is not None,
+                                  'bound': None, 'key': k, 'deco': deco, 'to_model': i % 4 == 1,
+                                  'cover': ['run:flag:' + flag_kind(flag)]})
+    return cases
+
+
 # ---------------------------------------------------------------- global-config LAYERS x call SEQUENCES
 # emmet.expand(abbr, config, global_config): the caller's data comes in layers -- global_config[<type>] (all markup
 # syntaxes), global_config[<syntax>] (one syntax), the user config of the call; each may carry `snippets`, `variables`,
@@ -1791,6 +1984,25 @@ def run(ctx):
                        'once an element has text (xsl:variable / xsl:with-param select, label for) are left out; (3) the decorated-alias theorems COMPOSED, on '
                        'resolve_snippets, one rotating subset per key in the resolver oracle, the same trees through the extracted model.  One in four (built-in) / '
                        'one in five (user tables) of these cases also goes through the extracted model of expand(); '
+                       'DECLARED-ONLY ATTRIBUTES x RUNS OF ALIAS DATA x FLAG SPELLINGS: 160 (thorough 1600) more generated tables (own random stream) of 1-3 '
+                       'acyclic snippets whose definitions have 1-3 top-level elements that DECLARE an attribute without giving it a value, most of them the '
+                       'same one on every element ([class] [class=""] [class=\'\'] [title] [t] [t=""] [t.] [class title] [title class] [id] [class t]; now and then a '
+                       'valued one: .c [class=c] [class="c d"] [t=1] [title=x] #i .c[class] [class].c), with text / self-closing mark / *2 / a child that declares '
+                       'attributes too, plain names and later keys as element names; every key with two drawn RUNS of alias data in which a name occurs more than '
+                       'once (.a.b  .a.b.c  .a[class=b]  [class=a].b  [class="a b"].c  #i.a.b  .a#i.b  [t=1][t=2]  [t=1 t=2]  [title=x].a.b  .a.b[t]  '
+                       '[t=1 u=2][t=3]  #i#j  [class=a][class=b][class=c]  .a.b[class]  [title=x][title=y]  .a.b[title=x t=2]  [class=a class=b]) in a drawn form '
+                       '(KEY<run>, ul>KEY<run>, ul>KEY<run>*2, i+KEY<run>+b, KEY<run>>b), and half of the keys with one colliding attribute as above; every built-in '
+                       'key (html; the keys xsl / pug add) with one run (rotating).  Oracle: expand(alias form) = expand(definition with the same run written on every '
+                       'top-level element by the textual reader); termination and nesting bound as above.  FLAG SPELLINGS: output.reverseAttributes is given with the '
+                       'truth value meant but not as the bool object -- on: 1 1.0 \'yes\' \'true\' 2 [1]; off: 0 None \'\' 0.0 [] -- in two thirds of these tables that '
+                       'set it (40% on, 30% of the others spelled off) and for EVERY built-in key (a third on), each built-in key also with every attribute name its '
+                       'definition gives a top-level element written on the alias again (one value, rotating through the empty / non-empty shapes above).  The harness '
+                       'reads the flag as Python does, bool(value): the definition in its place carries the alias data directly after the element name when it is true; '
+                       'the final-tree oracle of the colliding attributes (value written on the alias is the one every top-level element carries) applies unchanged.  The '
+                       'extracted model takes the flag as a bool (harness/markup_util.enc_config encodes bool(value)); one in four of these cases goes through it, the '
+                       'colliding ones of the generated tables through the oracle only.  OFF (EMPTY_CLASS_VALUE_ON_ALIAS, genuine difference found on the unchanged '
+                       'library): an alias that carries an explicitly empty class value followed by more class data (KEY[class=""].a, KEY[class={}].a, a definition '
+                       'writing [class=""] on an inner alias) -- not generated; '
                        'TERMINATION IS AN OUTCOME: every call into the implementation -- expand along every route, markup.parse for final trees (also the '
                        'calls the GENERATORS make to see where a collision can be written), resolve_snippets in the resolver oracle -- runs under a CPU-time '
                        'limit of 10 s that fires a BaseException (cannot be swallowed by `except Exception`) and under an address-space bound (RLIMIT_AS = size '
@@ -1810,6 +2022,8 @@ def run(ctx):
     cases += user_wrap_cases(ctx, tables)
     cases += user_combined_cases(ctx, tables)
     cases += session_cases(ctx, 90 if ctx.tier == 'quick' else 900)
+    cases += builtin_run_cases()
+    cases += declared_run_cases(ctx, 160 if ctx.tier == 'quick' else 1600)
     lap('generate')
     wires, idx, impl = [], [], []
     maxdepth = 0
@@ -1832,6 +2046,8 @@ def run(ctx):
             ctx.nontrivial((c['a'], canon_cfg(c['config'])))
         for b in c.get('session_cover') or ():
             ctx.cover('C14:session-call:' + b)
+        for b in c.get('cover') or ():
+            ctx.cover('C14:' + b)
         if why and 'session' in c:
             rp = session_replay(c, why)
             ctx.property_failure('C14:session:%s|%s|%s' % (c['a'], canon_cfg(c['config']), canon_cfg(c['session']['global'])),
